@@ -49,6 +49,7 @@ type epochRec struct {
 	term  uint64 // term of that snapshot = the restoring leader's term
 	state FSMState
 	seq   int64
+	prevLast uint64 // the restoring server's last index (log or snapshot) right before the user snapshot became durable
 }
 
 // restoreOK: a user Restore that returned nil (C20).
@@ -522,7 +523,13 @@ func (o *Oracle) onSnapDurable(inc *Inc, rec *SnapRec) {
 			}
 		}
 		if !found {
-			o.epochs = append(o.epochs, epochRec{base: rec.Meta.Index, term: rec.Meta.Term, state: st, seq: w.sim.Seq()})
+			prevLast := inc.node.disk.last
+			for _, sr := range inc.node.disk.snaps {
+				if sr != rec && sr.Meta.Index > prevLast {
+					prevLast = sr.Meta.Index
+				}
+			}
+			o.epochs = append(o.epochs, epochRec{base: rec.Meta.Index, term: rec.Meta.Term, state: st, seq: w.sim.Seq(), prevLast: prevLast})
 			sort.Slice(o.epochs, func(i, j int) bool { return o.epochs[i].base < o.epochs[j].base })
 			o.canon = map[uint64]FSMState{}
 		}
